@@ -131,6 +131,10 @@ def observe(ctx, batches):
             args += ['-wholedocs']
         if getattr(b, 'handbuilt', False):
             args += ['-handbuilt']
+        if getattr(b, 'mirror', False):
+            args += ['-mirror']
+        if getattr(b, 'gadgets', False):
+            args += ['-gadgets']
         if b.oddtargets:
             args += ['-oddtargets']
         if b.allfaults:
@@ -326,6 +330,8 @@ def s1_batches(ctx, opts, skip_collide=False):
             # a model assembled by hand rather than decoded (schema unions without the Allows flag); long acyclic chains
             handb(Batch(G_N4_S_WF, ['sibling'], opts[:1], [sd['rot'], (sd['rot'] + 3) % 12, (sd['rot'] + 6) % 12], reps=1)),
             Batch(G_N3_ALL_WF, ['subdir', 'remote'], opts[:1], [sd['rot']], reps=1, names='perdoc', spell='simple'),
+            mirrorb(Batch(G_N3_ALL_WF, ['subdir', 'parent'], opts, [sd['rot']], reps=2, names='perdoc', spell='simple')),
+            gadgetb(Batch(G_N4_SR_WF if ctx.seed % 2 else G_N4_SP_WF, ['subdir'], opts[:1], [sd['rot']], reps=2, names='perdoc', spell='simple')),
             Batch(('chain', 40), ['sibling'], opts, [sd['rot']], reps=1),
             Batch(('chain', 40), ['sibling'], opts[:1], [sd['rot']], reps=1, entry='ExpandSchema:typed,ExpandSchemaWithBasePath')]
 
@@ -501,6 +507,16 @@ def handb(b):
     return b
 
 
+def mirrorb(b):
+    b.mirror = True
+    return b
+
+
+def gadgetb(b):
+    b.gadgets = True
+    return b
+
+
 def check_c09(ctx):
     sd = seeded(ctx)
     preds = ['c09keep', 'c09defs', 'c09form', 'c02', 'c09then', 'c03cut']
@@ -519,6 +535,10 @@ def check_c09(ctx):
                          entry='SkipThenFull'),
                    # the same reference text in several documents, meaning another element in each
                    Batch(G_N3_ALL_WF, ['subdir', 'otherdir', 'sibling'], ['100', '000'], [sd['rot']], reps=1, names='perdoc', spell='simple'),
+                   # ... every graph doubled by its mirror image in the other document (same names, same reference texts)
+                   mirrorb(Batch(G_N3_ALL_WF, ['subdir', 'otherdir'], ['100', '000'], [sd['rot']], reps=1, names='perdoc', spell='simple')),
+                   # ... and every 4-node parameter / response graph next to small root structures that reuse its names
+                   gadgetb(Batch(G_N4_SR_WF if ctx.seed % 2 else G_N4_SP_WF, ['subdir'], ['100'], [sd['rot']], reps=1, names='perdoc', spell='simple')),
                    # parameters / responses with nested schemas (4 nodes): every sub-schema keyword, definitions included
                    Batch(G_N4_SP_WF if ctx.seed % 2 else G_N4_SR_WF, ['subdir', 'parent'], ['100'], [sd['rot'], (sd['rot'] + 3) % 12, (sd['rot'] + 6) % 12],
                          reps=1, names=sd['names'], spell=sd['spell'])]
